@@ -14,7 +14,7 @@
 extern "C" {
 #endif
 
-#define VS_MAXT 24
+#define VS_MAXT 48
 #define VS_MAXPOINTS 60000
 #define VS_MAXPREFIX 8192
 #define VS_MAXOPT 12
@@ -65,6 +65,7 @@ void vs_end(void);                   /* thread 0 finished its body: verifies all
 int vs_active(void);
 /* quiescence callback: return 1 if "no runnable thread" is an acceptable final state */
 void vs_set_quiescence_cb(int (*cb)(void));
+void vs_set_abnormal_exit_code(int c); /* exit code used when an execution ends by deadlock/horizon/vs_fail (default 0) */
 
 /* ---- used by the shim ---- */
 int vs_self(void);
